@@ -27,6 +27,8 @@ Lemma cmp_retain a b : ORACLE_RETAIN_CMP a b = N.leb b a.
 Proof. apply params_ok. Qed.
 Lemma cmp_rollback a b : ORACLE_ROLLBACK_CMP a b = N.eqb a b.
 Proof. apply params_ok. Qed.
+Lemma cmp_pub_same a b : ORACLE_PUBLISH_SAME_CMP a b = N.eqb a b.
+Proof. apply params_ok. Qed.
 Lemma first_seq : COMMIT_FIRST_SEQ = 1.
 Proof. apply params_ok. Qed.
 
@@ -125,11 +127,10 @@ Proof.
     + apply IH. exact Hd.
 Qed.
 
-(* ---------- folds of publish / rollback / rollback_restore ---------- *)
+(* ---------- folds of publish / rollback ---------- *)
 Section Folds.
 Variable fp : bytes -> N.
 
-Definition ins_step (stamp : N) := fun (m : fmap) (k : bytes) => fm_insert (fp k) stamp m.
 Definition has_fp (f : N) (keys : list bytes) : bool := existsb (fun k => N.eqb (fp k) f) keys.
 
 Lemma has_fp_in f keys : has_fp f keys = true <-> exists k, In k keys /\ fp k = f.
@@ -139,97 +140,88 @@ Proof.
   - apply N.eqb_eq. exact H2.
 Qed.
 
-Lemma get_inserts stamp keys : forall m f,
-  fm_get f (fold_left (ins_step stamp) keys m) = if has_fp f keys then Some stamp else fm_get f m.
+(* what publish leaves behind an entry: the stamp it overwrote, unless the entry already had
+   this stamp (then what that one had overwritten) *)
+Definition pub_prev (stamp : N) (o : option entry) : option N :=
+  match o with Some (cur, pv) => if N.eqb cur stamp then pv else Some cur | None => None end.
+Lemma get_pub_step stamp k m f :
+  fm_get f (pub_step fp stamp m k) = if N.eqb (fp k) f then Some (stamp, pub_prev stamp (fm_get f m)) else fm_get f m.
+Proof.
+  unfold pub_step. destruct (N.eqb (fp k) f) eqn:E.
+  - apply N.eqb_eq in E. subst f. destruct (fm_get (fp k) m) as [[cur pv]|] eqn:Eg; cbn [pub_prev].
+    + rewrite cmp_pub_same. destruct (N.eqb cur stamp) eqn:Ec.
+      * apply N.eqb_eq in Ec. subst cur. exact Eg.
+      * apply fm_get_insert_same.
+    + apply fm_get_insert_same.
+  - destruct (fm_get (fp k) m) as [[cur pv]|].
+    + rewrite cmp_pub_same. destruct (N.eqb cur stamp); [reflexivity|]. rewrite fm_get_insert. rewrite E. reflexivity.
+    + rewrite fm_get_insert. rewrite E. reflexivity.
+Qed.
+Lemma pub_prev_idem stamp o : pub_prev stamp (Some (stamp, pub_prev stamp o)) = pub_prev stamp o.
+Proof. cbn [pub_prev]. rewrite N.eqb_refl. reflexivity. Qed.
+Lemma get_pubs stamp keys : forall m f,
+  fm_get f (fold_left (pub_step fp stamp) keys m) =
+    if has_fp f keys then Some (stamp, pub_prev stamp (fm_get f m)) else fm_get f m.
 Proof.
   induction keys as [|k r IH]; intros m f; [reflexivity|]. cbn [fold_left has_fp existsb].
-  rewrite IH. fold (has_fp f r). destruct (has_fp f r); [rewrite orb_true_r; reflexivity|].
-  rewrite orb_false_r. unfold ins_step. apply fm_get_insert.
+  rewrite IH. fold (has_fp f r). rewrite get_pub_step. destruct (N.eqb (fp k) f); cbn [orb].
+  - destruct (has_fp f r); [rewrite pub_prev_idem|]; reflexivity.
+  - reflexivity.
 Qed.
-Lemma wf_inserts stamp keys : forall m, fm_wf m -> fm_wf (fold_left (ins_step stamp) keys m).
+Lemma wf_pubs stamp keys : forall m, fm_wf m -> fm_wf (fold_left (pub_step fp stamp) keys m).
 Proof.
-  induction keys as [|k r IH]; intros m H; [exact H|]. cbn [fold_left]. apply IH. apply fm_wf_insert. exact H.
+  induction keys as [|k r IH]; intros m H; [exact H|]. cbn [fold_left]. apply IH. unfold pub_step.
+  destruct (fm_get (fp k) m) as [[cur pv]|]; [|apply fm_wf_insert; exact H].
+  destruct (ORACLE_PUBLISH_SAME_CMP cur stamp); [exact H|apply fm_wf_insert; exact H].
 Qed.
 
-Definition rb_step (stamp : N) := fun (m : fmap) (k : bytes) =>
-  match fm_get (fp k) m with
-  | Some v => if ORACLE_ROLLBACK_CMP v stamp then fm_remove (fp k) m else m
-  | None => m
+(* rollback of one fingerprint *)
+Definition rb_val (stamp : N) (o : option entry) : option entry :=
+  match o with
+  | Some (v, prev) => if N.eqb v stamp then match prev with Some p => Some (p, None) | None => None end else Some (v, prev)
+  | None => None
   end.
-Definition rb_val (stamp : N) (o : option N) : option N :=
-  match o with Some v => if N.eqb v stamp then None else Some v | None => None end.
-Lemma rb_val_idem stamp o : rb_val stamp (rb_val stamp o) = rb_val stamp o.
-Proof. destruct o as [v|]; [|reflexivity]. cbn. destruct (N.eqb v stamp) eqn:E; [reflexivity|]. cbn. rewrite E. reflexivity. Qed.
+(* the remembered previous stamp never equals the entry's own stamp *)
+Definition prev_ne (stamp : N) (o : option entry) : Prop := forall p, o = Some (stamp, Some p) -> p <> stamp.
+Lemma rb_val_prev_ne stamp o : prev_ne stamp (rb_val stamp o).
+Proof.
+  intros p H. destruct o as [[v prev]|]; [|discriminate]. cbn [rb_val] in H.
+  destruct (N.eqb v stamp) eqn:E.
+  - destruct prev; [inversion H|discriminate].
+  - inversion H. subst v. rewrite N.eqb_refl in E. discriminate.
+Qed.
+Lemma rb_val_idem stamp o : prev_ne stamp o -> rb_val stamp (rb_val stamp o) = rb_val stamp o.
+Proof.
+  intros Hp. destruct o as [[v prev]|]; [|reflexivity]. cbn [rb_val]. destruct (N.eqb v stamp) eqn:E.
+  - apply N.eqb_eq in E. subst v. destruct prev as [p|]; [|reflexivity]. cbn [rb_val].
+    destruct (N.eqb p stamp) eqn:E2; [|reflexivity]. apply N.eqb_eq in E2. exfalso. apply (Hp p); [reflexivity|exact E2].
+  - cbn [rb_val]. rewrite E. reflexivity.
+Qed.
 Lemma get_rb_step stamp k m f :
-  fm_get f (rb_step stamp m k) = if N.eqb (fp k) f then rb_val stamp (fm_get f m) else fm_get f m.
+  fm_get f (rb_step fp stamp m k) = if N.eqb (fp k) f then rb_val stamp (fm_get f m) else fm_get f m.
 Proof.
   unfold rb_step. destruct (N.eqb (fp k) f) eqn:E.
-  - apply N.eqb_eq in E. subst f. destruct (fm_get (fp k) m) as [v|] eqn:Eg; cbn [rb_val].
-    + rewrite cmp_rollback. destruct (N.eqb v stamp); [apply fm_get_remove_same|exact Eg].
-    + exact Eg.
-  - destruct (fm_get (fp k) m) as [v|]; [|reflexivity]. rewrite cmp_rollback.
-    destruct (N.eqb v stamp); [|reflexivity]. rewrite fm_get_remove. rewrite E. reflexivity.
+  - apply N.eqb_eq in E. subst f. destruct (fm_get (fp k) m) as [[v prev]|] eqn:Eg; cbn [rb_val]; [|exact Eg].
+    rewrite cmp_rollback. destruct (N.eqb v stamp); [|exact Eg].
+    destruct prev as [p|]; [apply fm_get_insert_same|apply fm_get_remove_same].
+  - destruct (fm_get (fp k) m) as [[v prev]|]; [|reflexivity]. rewrite cmp_rollback.
+    destruct (N.eqb v stamp); [|reflexivity].
+    destruct prev as [p|]; [rewrite fm_get_insert|rewrite fm_get_remove]; rewrite E; reflexivity.
 Qed.
-Lemma get_rollbacks stamp keys : forall m f,
-  fm_get f (fold_left (rb_step stamp) keys m) = if has_fp f keys then rb_val stamp (fm_get f m) else fm_get f m.
+Lemma get_rollbacks stamp keys : forall m f, prev_ne stamp (fm_get f m) ->
+  fm_get f (fold_left (rb_step fp stamp) keys m) = if has_fp f keys then rb_val stamp (fm_get f m) else fm_get f m.
 Proof.
-  induction keys as [|k r IH]; intros m f; [reflexivity|]. cbn [fold_left has_fp existsb].
-  rewrite IH. fold (has_fp f r). rewrite get_rb_step.
-  destruct (N.eqb (fp k) f); cbn [orb].
-  - destruct (has_fp f r); [apply rb_val_idem|reflexivity].
-  - reflexivity.
+  induction keys as [|k r IH]; intros m f Hp; [reflexivity|]. cbn [fold_left has_fp existsb].
+  fold (has_fp f r). destruct (N.eqb (fp k) f) eqn:E; cbn [orb].
+  - rewrite IH; rewrite get_rb_step, E; [|apply rb_val_prev_ne].
+    destruct (has_fp f r); [apply rb_val_idem; exact Hp|reflexivity].
+  - rewrite IH; rewrite get_rb_step, E; [reflexivity|exact Hp].
 Qed.
-Lemma wf_rollbacks stamp keys : forall m, fm_wf m -> fm_wf (fold_left (rb_step stamp) keys m).
+Lemma wf_rollbacks stamp keys : forall m, fm_wf m -> fm_wf (fold_left (rb_step fp stamp) keys m).
 Proof.
   induction keys as [|k r IH]; intros m H; [exact H|]. cbn [fold_left]. apply IH. unfold rb_step.
-  destruct (fm_get (fp k) m) as [v|]; [|exact H]. destruct (ORACLE_ROLLBACK_CMP v stamp); [apply fm_wf_remove|]; exact H.
-Qed.
-
-(* rollback_restore: every record of fingerprint f carries the same previous value P *)
-Definition rs_val (stamp : N) (P o : option N) : option N :=
-  match o with Some v => if N.eqb v stamp then P else Some v | None => None end.
-Lemma get_restore1 stamp m e f :
-  fm_get f (restore1 stamp m e) = if N.eqb (fst e) f then rs_val stamp (snd e) (fm_get f m) else fm_get f m.
-Proof.
-  unfold restore1. destruct e as [g p]. cbn [fst snd]. destruct (N.eqb g f) eqn:E.
-  - apply N.eqb_eq in E. subst g. destruct (fm_get f m) as [v|] eqn:Eg; cbn [rs_val]; [|exact Eg].
-    destruct (N.eqb v stamp); [|exact Eg]. destruct p as [p|]; [apply fm_get_insert_same|apply fm_get_remove_same].
-  - destruct (fm_get g m) as [v|]; [|reflexivity]. destruct (N.eqb v stamp); [|reflexivity].
-    destruct p as [p|]; [rewrite fm_get_insert|rewrite fm_get_remove]; rewrite E; reflexivity.
-Qed.
-Lemma rs_val_idem stamp P o : rs_val stamp P (rs_val stamp P o) = rs_val stamp P o.
-Proof.
-  destruct o as [v|]; [|reflexivity]. cbn. destruct (N.eqb v stamp) eqn:E.
-  - destruct P as [p|]; [|reflexivity]. cbn. destruct (N.eqb p stamp); reflexivity.
-  - cbn. rewrite E. reflexivity.
-Qed.
-Lemma get_restores stamp P f : forall u m,
-  (forall p, In (f, p) u -> p = P) ->
-  fm_get f (fold_left (restore1 stamp) u m) =
-    if existsb (fun e => N.eqb (fst e) f) u then rs_val stamp P (fm_get f m) else fm_get f m.
-Proof.
-  induction u as [|e r IH]; intros m HP; [reflexivity|]. cbn [fold_left existsb].
-  rewrite IH by (intros p Hin; apply HP; right; exact Hin). rewrite get_restore1.
-  destruct (N.eqb (fst e) f) eqn:E; cbn [orb].
-  - assert (snd e = P) as ->.
-    { apply HP. left. destruct e as [g p]. cbn [fst snd] in *. apply N.eqb_eq in E. subst g. reflexivity. }
-    destruct (existsb _ r); [apply rs_val_idem|reflexivity].
-  - reflexivity.
-Qed.
-Lemma wf_restores stamp : forall u m, fm_wf m -> fm_wf (fold_left (restore1 stamp) u m).
-Proof.
-  induction u as [|e r IH]; intros m H; [exact H|]. cbn [fold_left]. apply IH. unfold restore1.
-  destruct (fm_get (fst e) m) as [v|]; [|exact H]. destruct (N.eqb v stamp); [|exact H].
-  destruct (snd e); [apply fm_wf_insert|apply fm_wf_remove]; exact H.
-Qed.
-Lemma undo_has_fp s keys f :
-  existsb (fun e : N * option N => N.eqb (fst e) f) (publish_undo fp s keys) = has_fp f keys.
-Proof.
-  unfold publish_undo, has_fp. induction keys as [|k r IH]; [reflexivity|]. cbn [map existsb fst]. rewrite IH. reflexivity.
-Qed.
-Lemma undo_prev s keys f p : In (f, p) (publish_undo fp s keys) -> p = fm_get f (recent s).
-Proof.
-  unfold publish_undo. rewrite in_map_iff. intros [k [H _]]. inversion H. reflexivity.
+  destruct (fm_get (fp k) m) as [[v prev]|]; [|exact H]. destruct (ORACLE_ROLLBACK_CMP v stamp); [|exact H].
+  destruct prev; [apply fm_wf_insert|apply fm_wf_remove]; exact H.
 Qed.
 End Folds.
 
@@ -237,6 +229,15 @@ End Folds.
 Section OracleOps.
 Variable fp : bytes -> N.
 Variable G : N.
+
+Lemma fm_stamp_some f m v : fm_stamp f m = Some v <-> exists pv, fm_get f m = Some (v, pv).
+Proof.
+  unfold fm_stamp. destruct (fm_get f m) as [[w pv]|]; cbn [option_map fst]; split.
+  - intros H. inversion H. exists pv. reflexivity.
+  - intros [pv' H]. inversion H. reflexivity.
+  - discriminate.
+  - intros [pv' H]. discriminate.
+Qed.
 
 Lemma check_retry : retry_only_when_pruned_stmt fp.
 Proof.
@@ -247,26 +248,24 @@ Proof.
     + intros H. apply N.ltb_lt in H. congruence.
 Qed.
 
-Definition key_conflicts (s : ostate) (start : N) (k : bytes) : bool :=
-  match fm_get (fp k) (recent s) with Some committed => ORACLE_CONFLICT_CMP committed start | None => false end.
-
 Lemma check_conflict_iff : check_conflict_iff_stmt fp.
 Proof.
   intros s keys start Hk. unfold check. rewrite cmp_retry.
   assert (N.ltb start (kept_since s) = false) as -> by (apply N.ltb_ge; exact Hk).
   destruct (existsb _ keys) eqn:E.
   - split; [|reflexivity]. intros _. apply existsb_exists in E. destruct E as [k [Hin Hc]].
-    destruct (fm_get (fp k) (recent s)) as [v|] eqn:Eg; [|discriminate].
-    rewrite cmp_conflict in Hc. apply N.ltb_lt in Hc. exists k, v. auto.
-  - split; [discriminate|]. intros [k [v [Hin [Hg Hlt]]]]. exfalso.
+    destruct (fm_get (fp k) (recent s)) as [[v pv]|] eqn:Eg; [|discriminate].
+    rewrite cmp_conflict in Hc. apply N.ltb_lt in Hc. exists k, v. split; [exact Hin|]. split; [|exact Hc].
+    apply fm_stamp_some. exists pv. exact Eg.
+  - split; [discriminate|]. intros [k [v [Hin [Hg Hlt]]]]. exfalso. apply fm_stamp_some in Hg. destruct Hg as [pv Hg].
     assert (existsb (fun k => match fm_get (fp k) (recent s) with
-                              | Some committed => ORACLE_CONFLICT_CMP committed start | None => false end) keys = true) as H.
+                              | Some (committed, _) => ORACLE_CONFLICT_CMP committed start | None => false end) keys = true) as H.
     { apply existsb_exists. exists k. split; [exact Hin|]. rewrite Hg. rewrite cmp_conflict. apply N.ltb_lt. exact Hlt. }
     congruence.
 Qed.
 
 Lemma check_ok_inv s keys start : check fp s keys start = VOk ->
-  kept_since s <= start /\ forall k v, In k keys -> fm_get (fp k) (recent s) = Some v -> v <= start.
+  kept_since s <= start /\ forall k v, In k keys -> fm_stamp (fp k) (recent s) = Some v -> v <= start.
 Proof.
   intros H. assert (kept_since s <= start) as Hk.
   { destruct (N.le_gt_cases (kept_since s) start) as [L|L]; [exact L|].
@@ -277,7 +276,7 @@ Proof.
   congruence.
 Qed.
 Lemma check_ok_intro s keys start :
-  kept_since s <= start -> (forall k v, In k keys -> fm_get (fp k) (recent s) = Some v -> v <= start) ->
+  kept_since s <= start -> (forall k v, In k keys -> fm_stamp (fp k) (recent s) = Some v -> v <= start) ->
   check fp s keys start = VOk.
 Proof.
   intros Hk Hall. destruct (check fp s keys start) eqn:E; [reflexivity| |].
@@ -302,32 +301,47 @@ Lemma publish_kept_le s keys seq count oldest b :
   kept_since s <= b -> oldest <= b -> kept_since (publish fp G s keys seq count oldest) <= b.
 Proof. intros H1 H2. rewrite publish_kept. destruct (gc_fires s oldest); assumption. Qed.
 
-Definition gc_val (oldest : N) (o : option N) : option N :=
-  match o with Some v => if N.leb oldest v then Some v else None | None => None end.
+Definition gc_val (oldest : N) (o : option entry) : option entry :=
+  match o with Some e => if N.leb oldest (fst e) then Some e else None | None => None end.
+Definition pub_base (s : ostate) (keys : list bytes) (stamp f : N) : option entry :=
+  if has_fp fp f keys then Some (stamp, pub_prev stamp (fm_get f (recent s))) else fm_get f (recent s).
 Lemma publish_get s keys seq count oldest f : fm_wf (recent s) ->
   fm_get f (recent (publish fp G s keys seq count oldest)) =
-    let base := if has_fp fp f keys then Some (stamp_of seq count) else fm_get f (recent s) in
-    if gc_fires s oldest then gc_val oldest base else base.
+    if gc_fires s oldest then gc_val oldest (pub_base s keys (stamp_of seq count) f) else pub_base s keys (stamp_of seq count) f.
 Proof.
-  intros Hwf. unfold publish. fold (ins_step fp (stamp_of seq count)). fold (gc_fires s oldest).
+  intros Hwf. unfold publish, pub_base. fold (gc_fires s oldest).
   destruct (gc_fires s oldest); cbn [recent].
-  - rewrite fm_get_retain by (apply wf_inserts; exact Hwf). rewrite get_inserts. cbv zeta.
-    destruct (if has_fp fp f keys then _ else _) as [v|]; [|reflexivity]. cbn [gc_val]. rewrite cmp_retain. reflexivity.
-  - apply get_inserts.
+  - rewrite fm_get_retain by (apply wf_pubs; exact Hwf). rewrite get_pubs.
+    destruct (if has_fp fp f keys then _ else _) as [e|]; [|reflexivity]. cbn [gc_val]. rewrite cmp_retain. reflexivity.
+  - apply get_pubs.
 Qed.
 Lemma publish_wf s keys seq count oldest : fm_wf (recent s) -> fm_wf (recent (publish fp G s keys seq count oldest)).
 Proof.
-  intros Hwf. unfold publish. fold (ins_step fp (stamp_of seq count)). destruct (_ && _); cbn [recent].
-  - apply fm_wf_retain. apply wf_inserts. exact Hwf.
-  - apply wf_inserts. exact Hwf.
+  intros Hwf. unfold publish. destruct (_ && _); cbn [recent].
+  - apply fm_wf_retain. apply wf_pubs. exact Hwf.
+  - apply wf_pubs. exact Hwf.
+Qed.
+Lemma gc_val_some oldest o e : gc_val oldest o = Some e -> o = Some e.
+Proof. destruct o as [w|]; [|discriminate]. cbn. destruct (N.leb oldest (fst w)); [auto|discriminate]. Qed.
+Lemma publish_get_cases o keys seq count oldest f e : fm_wf (recent o) ->
+  fm_get f (recent (publish fp G o keys seq count oldest)) = Some e ->
+  (has_fp fp f keys = true /\ e = (stamp_of seq count, pub_prev (stamp_of seq count) (fm_get f (recent o)))) \/
+  (has_fp fp f keys = false /\ fm_get f (recent o) = Some e).
+Proof.
+  intros Hwf H. rewrite publish_get in H by exact Hwf.
+  assert (pub_base o keys (stamp_of seq count) f = Some e) as H2.
+  { destruct (gc_fires o oldest); [apply gc_val_some in H|]; exact H. }
+  unfold pub_base in H2. destruct (has_fp fp f keys); [left|right]; split; try reflexivity; congruence.
 Qed.
 
-(* ---------- soundness of the map w.r.t. a list of successful commits ---------- *)
+(* ---------- soundness / justification of the map w.r.t. a list of successful commits ---------- *)
 Definition osound (o : ostate) (done : list (N * list bytes)) : Prop :=
   forall m ks k, In (m, ks) done -> kept_since o < m -> In k ks ->
-    exists v, fm_get (fp k) (recent o) = Some v /\ m <= v.
+    exists v, fm_stamp (fp k) (recent o) = Some v /\ m <= v.
 Definition ojust (o : ostate) (done : list (N * list bytes)) : Prop :=
-  forall f v, fm_get f (recent o) = Some v -> exists ks k, In (v, ks) done /\ In k ks /\ fp k = f.
+  forall f v, fm_stamp f (recent o) = Some v -> exists ks k, In (v, ks) done /\ In k ks /\ fp k = f.
+(* every recorded stamp is below `b` *)
+Definition obelow (o : ostate) (b : N) : Prop := forall f e, fm_get f (recent o) = Some e -> fst e < b.
 
 Lemma has_fp_self k keys : In k keys -> has_fp fp (fp k) keys = true.
 Proof. intros H. apply has_fp_in. exists k. auto. Qed.
@@ -336,94 +350,93 @@ Lemma osound_publish o done keys seq count oldest :
   fm_wf (recent o) -> osound o done -> (forall m ks, In (m, ks) done -> m <= stamp_of seq count) ->
   osound (publish fp G o keys seq count oldest) ((stamp_of seq count, keys) :: done).
 Proof.
-  intros Hwf Hs Hle m ks k Hin Hm Hk. rewrite publish_get by exact Hwf. cbv zeta.
+  intros Hwf Hs Hle m ks k Hin Hm Hk. unfold fm_stamp. rewrite publish_get by exact Hwf.
   rewrite publish_kept in Hm.
-  assert (exists w, (if has_fp fp (fp k) keys then Some (stamp_of seq count) else fm_get (fp k) (recent o)) = Some w /\ m <= w) as [w [Hw Hmw]].
-  { destruct Hin as [Hin|Hin].
-    - inversion Hin. subst m ks. rewrite has_fp_self by exact Hk. exists (stamp_of seq count). split; [reflexivity|lia].
+  assert (exists e, pub_base o keys (stamp_of seq count) (fp k) = Some e /\ m <= fst e) as [e [He Hme]].
+  { unfold pub_base. destruct Hin as [Hin|Hin].
+    - inversion Hin. subst m ks. rewrite has_fp_self by exact Hk. eexists. split; [reflexivity|]. cbn [fst]. lia.
     - assert (kept_since o < m) as Hm0.
       { destruct (gc_fires o oldest) eqn:E; [apply gc_fires_mark in E; lia|exact Hm]. }
-      destruct (Hs m ks k Hin Hm0 Hk) as [v0 [Hg Hv]]. destruct (has_fp fp (fp k) keys).
-      + exists (stamp_of seq count). split; [reflexivity|]. apply (Hle m ks). exact Hin.
-      + exists v0. auto. }
-  rewrite Hw. destruct (gc_fires o oldest); [|exists w; auto]. cbn [gc_val].
-  assert (N.leb oldest w = true) as -> by (apply N.leb_le; lia). exists w. auto.
+      destruct (Hs m ks k Hin Hm0 Hk) as [v0 [Hg Hv]]. apply fm_stamp_some in Hg. destruct Hg as [pv Hg].
+      destruct (has_fp fp (fp k) keys).
+      + eexists. split; [reflexivity|]. cbn [fst]. apply (Hle m ks). exact Hin.
+      + exists (v0, pv). auto. }
+  rewrite He. destruct (gc_fires o oldest); [|exists (fst e); auto]. cbn [gc_val].
+  assert (N.leb oldest (fst e) = true) as -> by (apply N.leb_le; lia). exists (fst e). auto.
 Qed.
 
-Lemma osound_publish_restore o done keys seq count oldest :
-  fm_wf (recent o) -> osound o done -> (forall m ks, In (m, ks) done -> m <= stamp_of seq count) ->
-  osound (rollback_restore (publish fp G o keys seq count oldest) (publish_undo fp o keys) (stamp_of seq count)) done.
+(* after publish, no entry with this stamp remembers this stamp as its predecessor *)
+Lemma publish_prev_ne o keys seq count oldest f : fm_wf (recent o) -> obelow o (stamp_of seq count) ->
+  prev_ne (stamp_of seq count) (fm_get f (recent (publish fp G o keys seq count oldest))).
 Proof.
-  intros Hwf Hs Hle m ks k Hin Hm Hk. unfold rollback_restore in *. cbn [recent kept_since] in *.
-  rewrite publish_kept in Hm.
+  intros Hwf Hb p H. destruct (publish_get_cases _ _ _ _ _ _ _ Hwf H) as [[_ He]|[_ Ho]].
+  - inversion He as [Hp]. destruct (fm_get f (recent o)) as [[cur pv]|] eqn:Eg; cbn [pub_prev] in Hp; [|discriminate].
+    specialize (Hb f _ Eg). cbn [fst] in Hb. destruct (N.eqb cur (stamp_of seq count)) eqn:Ec.
+    + apply N.eqb_eq in Ec. lia.
+    + inversion Hp. lia.
+  - specialize (Hb f _ Ho). cbn [fst] in Hb. lia.
+Qed.
+
+Lemma rollback_get o keys seq count oldest f : fm_wf (recent o) -> obelow o (stamp_of seq count) ->
+  fm_get f (recent (rollback fp (publish fp G o keys seq count oldest) keys (stamp_of seq count))) =
+    let g1 := fm_get f (recent (publish fp G o keys seq count oldest)) in
+    if has_fp fp f keys then rb_val (stamp_of seq count) g1 else g1.
+Proof.
+  intros Hwf Hb. unfold rollback. cbn [recent]. apply get_rollbacks. apply publish_prev_ne; assumption.
+Qed.
+
+Lemma osound_publish_rollback o done keys seq count oldest :
+  fm_wf (recent o) -> osound o done -> obelow o (stamp_of seq count) ->
+  (forall m ks, In (m, ks) done -> m <= stamp_of seq count) ->
+  osound (rollback fp (publish fp G o keys seq count oldest) keys (stamp_of seq count)) done.
+Proof.
+  intros Hwf Hs Hb Hle m ks k Hin Hm Hk. unfold fm_stamp. rewrite rollback_get by assumption. cbv zeta.
+  change (kept_since (rollback fp ?x keys ?y)) with (kept_since x) in Hm. rewrite publish_kept in Hm.
   assert (kept_since o < m) as Hm0.
   { destruct (gc_fires o oldest) eqn:E; [apply gc_fires_mark in E; lia|exact Hm]. }
-  destruct (Hs m ks k Hin Hm0 Hk) as [v0 [Hg Hv]].
-  rewrite (get_restores (stamp_of seq count) (fm_get (fp k) (recent o)))
-    by (intros p Hp; apply (undo_prev fp o keys); exact Hp).
-  rewrite undo_has_fp. rewrite publish_get by exact Hwf. cbv zeta.
+  destruct (Hs m ks k Hin Hm0 Hk) as [v0 [Hg Hv]]. apply fm_stamp_some in Hg. destruct Hg as [pv Hg].
+  pose proof (Hb _ _ Hg) as Hv0. cbn [fst] in Hv0.
+  rewrite publish_get by exact Hwf. unfold pub_base. rewrite Hg. cbn [pub_prev].
+  assert (N.eqb v0 (stamp_of seq count) = false) as -> by (apply N.eqb_neq; lia).
   destruct (has_fp fp (fp k) keys) eqn:Eh.
   - destruct (gc_fires o oldest) eqn:Eg.
-    + cbn [gc_val]. destruct (N.leb oldest (stamp_of seq count)) eqn:El.
-      * cbn [rs_val]. rewrite N.eqb_refl. exists v0. auto.
+    + cbn [gc_val fst]. destruct (N.leb oldest (stamp_of seq count)) eqn:El.
+      * cbn [rb_val]. rewrite N.eqb_refl. cbn [option_map fst]. exists v0. auto.
       * exfalso. apply N.leb_gt in El. specialize (Hle m ks Hin). lia.
-    + cbn [rs_val]. rewrite N.eqb_refl. exists v0. auto.
-  - rewrite Hg. destruct (gc_fires o oldest); [|exists v0; auto]. cbn [gc_val].
-    assert (N.leb oldest v0 = true) as -> by (apply N.leb_le; lia). exists v0. auto.
-Qed.
-
-Lemma gc_val_some oldest o v : gc_val oldest o = Some v -> o = Some v.
-Proof. destruct o as [w|]; [|discriminate]. cbn. destruct (N.leb oldest w); [auto|discriminate]. Qed.
-
-Lemma publish_get_cases o keys seq count oldest f v : fm_wf (recent o) ->
-  fm_get f (recent (publish fp G o keys seq count oldest)) = Some v ->
-  (has_fp fp f keys = true /\ v = stamp_of seq count) \/ (has_fp fp f keys = false /\ fm_get f (recent o) = Some v).
-Proof.
-  intros Hwf H. rewrite publish_get in H by exact Hwf. cbv zeta in H.
-  assert ((if has_fp fp f keys then Some (stamp_of seq count) else fm_get f (recent o)) = Some v) as H2.
-  { destruct (gc_fires o oldest); [apply gc_val_some in H|]; exact H. }
-  destruct (has_fp fp f keys); [left|right]; split; try reflexivity; congruence.
+    + cbn [rb_val]. rewrite N.eqb_refl. cbn [option_map fst]. exists v0. auto.
+  - destruct (gc_fires o oldest); [|cbn [option_map fst]; exists v0; auto]. cbn [gc_val fst].
+    assert (N.leb oldest v0 = true) as -> by (apply N.leb_le; lia). cbn [option_map fst]. exists v0. auto.
 Qed.
 
 Lemma ojust_publish o done keys seq count oldest :
   fm_wf (recent o) -> ojust o done ->
   ojust (publish fp G o keys seq count oldest) ((stamp_of seq count, keys) :: done).
 Proof.
-  intros Hwf Hj f v Hg. destruct (publish_get_cases _ _ _ _ _ _ _ Hwf Hg) as [[Hh Hv]|[Hh Ho]].
-  - subst v. apply has_fp_in in Hh. destruct Hh as [k [Hin Hf]]. exists keys, k. split; [left; reflexivity|auto].
-  - destruct (Hj f v Ho) as [ks [k [H1 H2]]]. exists ks, k. split; [right; exact H1|exact H2].
+  intros Hwf Hj f v Hg. apply fm_stamp_some in Hg. destruct Hg as [pv Hg].
+  destruct (publish_get_cases _ _ _ _ _ _ _ Hwf Hg) as [[Hh Hv]|[Hh Ho]].
+  - inversion Hv. apply has_fp_in in Hh. destruct Hh as [k [Hin Hf]]. exists keys, k. split; [left; reflexivity|auto].
+  - destruct (Hj f v) as [ks [k [H1 H2]]]; [apply fm_stamp_some; exists pv; exact Ho|].
+    exists ks, k. split; [right; exact H1|exact H2].
 Qed.
 Lemma ojust_publish_rollback o done keys seq count oldest :
-  fm_wf (recent o) -> ojust o done ->
+  fm_wf (recent o) -> ojust o done -> obelow o (stamp_of seq count) ->
   ojust (rollback fp (publish fp G o keys seq count oldest) keys (stamp_of seq count)) done.
 Proof.
-  intros Hwf Hj f v Hg. unfold rollback in Hg. cbn [recent] in Hg.
-  change (fold_left _ keys ?m) with (fold_left (rb_step fp (stamp_of seq count)) keys m) in Hg.
-  rewrite get_rollbacks in Hg. destruct (has_fp fp f keys) eqn:Eh.
-  - exfalso. destruct (fm_get f (recent (publish fp G o keys seq count oldest))) as [w|] eqn:Ew; [|discriminate].
-    destruct (publish_get_cases _ _ _ _ _ _ _ Hwf Ew) as [[_ Hv]|[Hh _]]; [|congruence].
-    subst w. cbn [rb_val] in Hg. rewrite N.eqb_refl in Hg. discriminate.
-  - destruct (publish_get_cases _ _ _ _ _ _ _ Hwf Hg) as [[Hh _]|[_ Ho]]; [congruence|]. apply Hj. exact Ho.
-Qed.
-Lemma ojust_publish_restore o done keys seq count oldest :
-  fm_wf (recent o) -> ojust o done ->
-  ojust (rollback_restore (publish fp G o keys seq count oldest) (publish_undo fp o keys) (stamp_of seq count)) done.
-Proof.
-  intros Hwf Hj f v Hg. unfold rollback_restore in Hg. cbn [recent] in Hg.
-  rewrite (get_restores (stamp_of seq count) (fm_get f (recent o))) in Hg
-    by (intros p Hp; apply (undo_prev fp o keys); exact Hp).
-  rewrite undo_has_fp in Hg. destruct (has_fp fp f keys) eqn:Eh.
-  - destruct (fm_get f (recent (publish fp G o keys seq count oldest))) as [w|] eqn:Ew; [|discriminate].
-    destruct (publish_get_cases _ _ _ _ _ _ _ Hwf Ew) as [[_ Hv]|[Hh _]]; [|congruence].
-    subst w. cbn [rs_val] in Hg. rewrite N.eqb_refl in Hg. apply Hj. exact Hg.
-  - destruct (publish_get_cases _ _ _ _ _ _ _ Hwf Hg) as [[Hh _]|[_ Ho]]; [congruence|]. apply Hj. exact Ho.
+  intros Hwf Hj Hb f v Hg. apply fm_stamp_some in Hg. destruct Hg as [pv Hg].
+  rewrite rollback_get in Hg by assumption. cbv zeta in Hg. destruct (has_fp fp f keys) eqn:Eh.
+  - destruct (fm_get f (recent (publish fp G o keys seq count oldest))) as [e1|] eqn:E1; [|discriminate].
+    destruct (publish_get_cases _ _ _ _ _ _ _ Hwf E1) as [[_ He]|[Hh _]]; [|congruence]. subst e1.
+    cbn [rb_val] in Hg. rewrite N.eqb_refl in Hg.
+    destruct (fm_get f (recent o)) as [[cur pv0]|] eqn:Eo; cbn [pub_prev] in Hg; [|discriminate].
+    pose proof (Hb _ _ Eo) as Hc. cbn [fst] in Hc.
+    assert (N.eqb cur (stamp_of seq count) = false) as Hne by (apply N.eqb_neq; lia). rewrite Hne in Hg.
+    inversion Hg. subst v. apply Hj. apply fm_stamp_some. exists pv0. exact Eo.
+  - destruct (publish_get_cases _ _ _ _ _ _ _ Hwf Hg) as [[Hh _]|[_ Ho]]; [congruence|].
+    apply Hj. apply fm_stamp_some. exists pv. exact Ho.
 Qed.
 Lemma rollback_wf o keys stamp : fm_wf (recent o) -> fm_wf (recent (rollback fp o keys stamp)).
 Proof. intros H. unfold rollback. cbn [recent]. apply (wf_rollbacks fp stamp keys). exact H. Qed.
-Lemma restore_wf o u stamp : fm_wf (recent o) -> fm_wf (recent (rollback_restore o u stamp)).
-Proof. intros H. unfold rollback_restore. cbn [recent]. apply wf_restores. exact H. Qed.
 End OracleOps.
-
 (* ---------- the sequential commit machine ---------- *)
 Lemma tx_get_set_same i t l : tx_get i (tx_set i t l) = Some t.
 Proof.
@@ -472,10 +485,7 @@ Record inv (s : cstate) : Prop := {
   i_wf : fm_wf (recent (c_orc s));
   i_sound : osound fp (c_orc s) (c_done s);
   i_next : forall m ks, In (m, ks) (c_done s) -> m < c_next s;
-}.
-Record jinv (s : cstate) : Prop := {
-  j_wf : fm_wf (recent (c_orc s));
-  j_just : ojust fp (c_orc s) (c_done s);
+  i_just : ojust fp (c_orc s) (c_done s);
 }.
 Record winv (s : cstate) : Prop := {
   w_reg : watermark_ok s;
@@ -486,23 +496,21 @@ Definition regopen (s : cstate) : Prop :=
   forall id t, tx_get id (c_txs s) = Some t -> t_reg t = true -> t_closed t = false.
 
 Lemma inv_c0 : inv c0.
-Proof. split; cbn; [constructor|intros m ks k []|intros m ks []]. Qed.
-Lemma jinv_c0 : jinv c0.
-Proof. split; cbn; [constructor|intros f v H; discriminate]. Qed.
+Proof. split; cbn; [constructor|intros m ks k []|intros m ks []|intros f v H; discriminate]. Qed.
 Lemma winv_c0 : winv c0.
 Proof. split; cbn; [intros id t H; discriminate|lia|intros id t H; discriminate]. Qed.
 Lemma regopen_c0 : regopen c0.
 Proof. intros id t H. discriminate. Qed.
 
 (* the three shapes a step can have *)
-Inductive shape (fixed : bool) (s : cstate) (c : cstep) : cstate -> outcome -> Prop :=
-| ShSame o : shape fixed s c s o
-| ShTxs txs o : shape fixed s c
+Inductive shape (s : cstate) (c : cstep) : cstate -> outcome -> Prop :=
+| ShSame o : shape s c s o
+| ShTxs txs o : shape s c
     {| c_txs := txs; c_visible := c_visible s; c_next := c_next s; c_orc := c_orc s; c_done := c_done s |} o
 | ShOk id t keys :
     c = SCommit id keys false -> tx_get id (c_txs s) = Some t -> t_closed t = false -> keys <> [] ->
     check fp (c_orc s) keys (t_start t) = VOk ->
-    shape fixed s c
+    shape s c
       {| c_txs := tx_set id {| t_start := t_start t; t_reg := false; t_snap := t_snap t; t_closed := true |} (c_txs s);
          c_visible := N.max (c_visible s) (stamp_of (c_next s) (N.of_nat (length keys)));
          c_next := c_next s + N.of_nat (length keys);
@@ -511,24 +519,23 @@ Inductive shape (fixed : bool) (s : cstate) (c : cstep) : cstate -> outcome -> P
 | ShFail id t keys :
     c = SCommit id keys true -> tx_get id (c_txs s) = Some t -> t_closed t = false -> keys <> [] ->
     check fp (c_orc s) keys (t_start t) = VOk ->
-    shape fixed s c
+    shape s c
       {| c_txs := c_txs s;
          c_visible := N.max (c_visible s) (stamp_of (c_next s) (N.of_nat (length keys)));
          c_next := c_next s + N.of_nat (length keys);
-         c_orc := (let o1 := publish fp G (c_orc s) keys (c_next s) (N.of_nat (length keys)) (N.min (oldest_active s) (t_start t)) in
-                   if fixed then rollback_restore o1 (publish_undo fp (c_orc s) keys) (stamp_of (c_next s) (N.of_nat (length keys)))
-                   else rollback fp o1 keys (stamp_of (c_next s) (N.of_nat (length keys))));
+         c_orc := rollback fp (publish fp G (c_orc s) keys (c_next s) (N.of_nat (length keys)) (N.min (oldest_active s) (t_start t)))
+                           keys (stamp_of (c_next s) (N.of_nat (length keys)));
          c_done := c_done s |} OFailed
 | ShRestore max :
     c = SRestore max ->
-    shape fixed s c
+    shape s c
       {| c_txs := c_txs s;
          c_visible := if N.ltb 0 max then max else c_visible s;
          c_next := if N.ltb 0 max then max + 1 else c_next s;
          c_orc := reset_for_restore (c_orc s) max;
          c_done := filter (fun e => N.leb (fst e) max) (c_done s) |} OOk.
 
-Lemma step_shape fixed s c : shape fixed s c (step_state fp G fixed s c) (step_outcome fp G fixed s c).
+Lemma step_shape s c : shape s c (step_state fp G s c) (step_outcome fp G s c).
 Proof.
   unfold step_state, step_outcome. destruct c as [id m|id|id keys fail|max]; cbn [cs_step].
   - destruct (tx_get id (c_txs s)); cbn [fst snd]; [apply ShSame|apply ShTxs].
@@ -543,9 +550,17 @@ Proof.
   - cbn [fst snd]. apply ShRestore. reflexivity.
 Qed.
 
-Lemma inv_step fixed s c : inv s -> fixed = true \/ is_fail c = false -> inv (step_state fp G fixed s c).
+Lemma inv_below s : inv s -> obelow (c_orc s) (c_next s).
 Proof.
-  intros [Hwf Hs Hn] Hmode. destruct (step_shape fixed s c) as [o|txs o|id t keys Hc Hg Hcl Hne Hch|id t keys Hc Hg Hcl Hne Hch|max Hc].
+  intros [_ _ Hn Hj] f [v pv] Hg. cbn [fst]. destruct (Hj f v) as [ks [k [Hin _]]].
+  - apply fm_stamp_some. exists pv. exact Hg.
+  - apply (Hn v ks). exact Hin.
+Qed.
+
+Lemma inv_step s c : inv s -> inv (step_state fp G s c).
+Proof.
+  intros Hi. pose proof (inv_below s Hi) as Hb. destruct Hi as [Hwf Hs Hn Hj].
+  destruct (step_shape s c) as [o|txs o|id t keys Hc Hg Hcl Hne Hch|id t keys Hc Hg Hcl Hne Hch|max Hc].
   - split; assumption.
   - split; cbn; assumption.
   - pose proof (count_pos keys Hne) as Hcp. destruct (stamp_ge (c_next s) _ Hcp) as [Hs1 Hs2].
@@ -555,41 +570,29 @@ Proof.
     + apply publish_wf. exact Hwf.
     + apply osound_publish; assumption.
     + intros m ks [Hin|Hin]; [inversion Hin; subst; lia|]. specialize (Hn m ks Hin). lia.
-  - destruct Hmode as [Hf|Hf]; [|subst c; discriminate]. subst fixed.
-    pose proof (count_pos keys Hne) as Hcp. destruct (stamp_ge (c_next s) _ Hcp) as [Hs1 Hs2].
+    + apply ojust_publish; assumption.
+  - pose proof (count_pos keys Hne) as Hcp. destruct (stamp_ge (c_next s) _ Hcp) as [Hs1 Hs2].
     assert (forall m ks, In (m, ks) (c_done s) -> m <= stamp_of (c_next s) (N.of_nat (length keys))) as Hle.
     { intros m ks Hin. specialize (Hn m ks Hin). lia. }
+    assert (obelow (c_orc s) (stamp_of (c_next s) (N.of_nat (length keys)))) as Hb2.
+    { intros f e He. specialize (Hb f e He). lia. }
     split; cbn [c_orc c_done c_next].
-    + apply restore_wf. apply publish_wf. exact Hwf.
-    + apply osound_publish_restore; assumption.
+    + apply rollback_wf. apply publish_wf. exact Hwf.
+    + apply osound_publish_rollback; assumption.
     + intros m ks Hin. specialize (Hn m ks Hin). lia.
+    + apply ojust_publish_rollback; assumption.
   - split; cbn [c_orc c_done c_next reset_for_restore recent kept_since].
     + constructor.
     + intros m ks k Hin Hm _. cbn in Hm. apply filter_In in Hin. destruct Hin as [_ Hle]. cbn [fst] in Hle. apply N.leb_le in Hle. lia.
     + intros m ks Hin. apply filter_In in Hin. destruct Hin as [Hin Hle]. cbn [fst] in Hle. apply N.leb_le in Hle.
       specialize (Hn m ks Hin). destruct (N.ltb 0 max); lia.
-Qed.
-
-Lemma jinv_step fixed s c : jinv s -> jinv (step_state fp G fixed s c).
-Proof.
-  intros [Hwf Hj]. destruct (step_shape fixed s c) as [o|txs o|id t keys Hc Hg Hcl Hne Hch|id t keys Hc Hg Hcl Hne Hch|max Hc].
-  - split; assumption.
-  - split; cbn; assumption.
-  - split; cbn [c_orc c_done]; [apply publish_wf; exact Hwf|apply ojust_publish; assumption].
-  - split; cbn [c_orc c_done]; cbv zeta; destruct fixed.
-    + apply restore_wf. apply publish_wf. exact Hwf.
-    + apply rollback_wf. apply publish_wf. exact Hwf.
-    + apply ojust_publish_restore; assumption.
-    + apply ojust_publish_rollback; assumption.
-  - split; cbn [c_orc c_done reset_for_restore recent]; [constructor|intros f v H; discriminate].
+    + intros f v H. discriminate.
 Qed.
 
 Lemma rollback_kept o keys stamp : kept_since (rollback fp o keys stamp) = kept_since o.
 Proof. reflexivity. Qed.
-Lemma restore_kept o u stamp : kept_since (rollback_restore o u stamp) = kept_since o.
-Proof. reflexivity. Qed.
 
-Lemma winv_step fixed s c : winv s -> is_restore c = false -> winv (step_state fp G fixed s c).
+Lemma winv_step s c : winv s -> is_restore c = false -> winv (step_state fp G s c).
 Proof.
   intros [Hr Hk Hst] Hnr. unfold step_state. destruct c as [id m|id|id keys fail|max]; cbn [cs_step]; [| | |discriminate].
   - destruct (tx_get id (c_txs s)) eqn:Eg; cbn [fst]; [split; assumption|].
@@ -627,9 +630,8 @@ Proof.
       { intros id' t' Hg' Hreg'. apply publish_kept_le; [apply (Hr id'); assumption|].
         pose proof (oldest_active_le_reg s id' t' Hg' Hreg'). unfold old. lia. }
       destruct fail; cbn [fst].
-      * assert (kept_since (if fixed then rollback_restore o1 (publish_undo fp (c_orc s) keys) (stamp_of (c_next s) (N.of_nat (length keys)))
-                            else rollback fp o1 keys (stamp_of (c_next s) (N.of_nat (length keys)))) = kept_since o1) as Hkk
-          by (destruct fixed; reflexivity).
+      * assert (kept_since (rollback fp o1 keys (stamp_of (c_next s) (N.of_nat (length keys)))) = kept_since o1) as Hkk
+          by reflexivity.
         split; cbn [c_txs c_orc c_visible]; rewrite ?Hkk.
         -- intros id' t'. unfold watermark_ok in *. cbn [c_txs c_orc]. rewrite Hkk. apply Hr1.
         -- lia.
@@ -644,7 +646,7 @@ Proof.
            ++ intros Hg'. specialize (Hst id' t' Hg'). lia.
 Qed.
 
-Lemma regopen_step fixed s c : regopen s -> regopen (step_state fp G fixed s c).
+Lemma regopen_step s c : regopen s -> regopen (step_state fp G s c).
 Proof.
   intros Hro. unfold step_state. destruct c as [id m|id|id keys fail|max]; cbn [cs_step].
   - destruct (tx_get id (c_txs s)); cbn [fst]; [exact Hro|]. intros id' t'. cbn [c_txs c_orc c_visible]. rewrite tx_get_set.
@@ -662,47 +664,41 @@ Proof.
 Qed.
 
 (* ---------- runs ---------- *)
-Lemma run_app fixed a b s : run fp G fixed (a ++ b) s = run fp G fixed b (run fp G fixed a s).
+Lemma run_app a b s : run fp G (a ++ b) s = run fp G b (run fp G a s).
 Proof. unfold run. apply fold_left_app. Qed.
 
-Lemma inv_run fixed steps : forall s, inv s -> fixed = true \/ no_fail steps -> inv (run fp G fixed steps s).
-Proof.
-  induction steps as [|c r IH]; intros s Hi Hm; [exact Hi|]. cbn [run fold_left]. apply IH.
-  - apply inv_step; [exact Hi|]. destruct Hm as [Hm|Hm]; [left; exact Hm|right; apply Hm; left; reflexivity].
-  - destruct Hm as [Hm|Hm]; [left; exact Hm|right]. intros c' Hin. apply Hm. right. exact Hin.
-Qed.
-Lemma jinv_run fixed steps : forall s, jinv s -> jinv (run fp G fixed steps s).
-Proof. induction steps as [|c r IH]; intros s Hi; [exact Hi|]. cbn [run fold_left]. apply IH. apply jinv_step. exact Hi. Qed.
-Lemma winv_run fixed steps : forall s, winv s -> no_restore steps -> winv (run fp G fixed steps s).
+Lemma inv_run steps : forall s, inv s -> inv (run fp G steps s).
+Proof. induction steps as [|c r IH]; intros s Hi; [exact Hi|]. cbn [run fold_left]. apply IH. apply inv_step. exact Hi. Qed.
+Lemma winv_run steps : forall s, winv s -> no_restore steps -> winv (run fp G steps s).
 Proof.
   induction steps as [|c r IH]; intros s Hi Hm; [exact Hi|]. cbn [run fold_left]. apply IH.
   - apply winv_step; [exact Hi|apply Hm; left; reflexivity].
   - intros c' Hin. apply Hm. right. exact Hin.
 Qed.
-Lemma regopen_run fixed steps : forall s, regopen s -> regopen (run fp G fixed steps s).
+Lemma regopen_run steps : forall s, regopen s -> regopen (run fp G steps s).
 Proof. induction steps as [|c r IH]; intros s Hi; [exact Hi|]. cbn [run fold_left]. apply IH. apply regopen_step. exact Hi. Qed.
 
 (* keys of the successful commits come from the steps *)
-Lemma done_keys_step fixed s c m ks : In (m, ks) (c_done (step_state fp G fixed s c)) ->
+Lemma done_keys_step s c m ks : In (m, ks) (c_done (step_state fp G s c)) ->
   In (m, ks) (c_done s) \/ ks = step_keys c.
 Proof.
-  destruct (step_shape fixed s c) as [o|txs o|id t keys Hc Hg Hcl Hne Hch|id t keys Hc Hg Hcl Hne Hch|max Hc]; cbn [c_done]; auto.
+  destruct (step_shape s c) as [o|txs o|id t keys Hc Hg Hcl Hne Hch|id t keys Hc Hg Hcl Hne Hch|max Hc]; cbn [c_done]; auto.
   - intros [H|H]; [right; inversion H; subst c; subst ks; reflexivity|left; exact H].
   - intros H. apply filter_In in H. left. apply H.
 Qed.
-Lemma done_keys_run fixed steps : forall s m ks k, In (m, ks) (c_done (run fp G fixed steps s)) -> In k ks ->
+Lemma done_keys_run steps : forall s m ks k, In (m, ks) (c_done (run fp G steps s)) -> In k ks ->
   (exists m', In (m', ks) (c_done s)) \/ In k (steps_keys steps).
 Proof.
   induction steps as [|c r IH]; intros s m ks k Hin Hk; [left; exists m; exact Hin|]. cbn [run fold_left] in Hin.
   destruct (IH _ _ _ _ Hin Hk) as [[m' H]|H].
-  - destruct (done_keys_step _ _ _ _ _ H) as [H2|H2]; [left; exists m'; exact H2|].
+  - destruct (done_keys_step _ _ _ _ H) as [H2|H2]; [left; exists m'; exact H2|].
     right. unfold steps_keys. cbn [map concat]. apply in_or_app. left. subst ks. exact Hk.
   - right. unfold steps_keys. cbn [map concat]. apply in_or_app. right. exact H.
 Qed.
 
 (* ---------- what an accepted / refused commit means ---------- *)
-Lemma commit_outcome fixed s id keys fail t : tx_get id (c_txs s) = Some t ->
-  step_outcome fp G fixed s (SCommit id keys fail) =
+Lemma commit_outcome s id keys fail t : tx_get id (c_txs s) = Some t ->
+  step_outcome fp G s (SCommit id keys fail) =
     if t_closed t then OClosed
     else match keys with
          | [] => OOk
@@ -716,48 +712,40 @@ Proof.
   destruct (check fp (c_orc s) (k0 :: kr) (t_start t)); try reflexivity. destruct fail; reflexivity.
 Qed.
 
-Lemma no_lost_update_from_inv fixed s id keys fail t m ks k :
+Lemma no_lost_update_from_inv s id keys fail t m ks k :
   inv s -> tx_get id (c_txs s) = Some t ->
-  step_outcome fp G fixed s (SCommit id keys fail) = OOk ->
+  step_outcome fp G s (SCommit id keys fail) = OOk ->
   In (m, ks) (c_done s) -> t_start t < m -> In k keys -> ~ In k ks.
 Proof.
-  intros [Hwf Hs Hn] Hg Ho Hin Hlt Hk Hks. rewrite (commit_outcome _ _ _ _ _ _ Hg) in Ho.
+  intros [Hwf Hs Hn _] Hg Ho Hin Hlt Hk Hks. rewrite (commit_outcome _ _ _ _ _ Hg) in Ho.
   destruct (t_closed t); [discriminate|]. destruct keys as [|k0 kr]; [destruct Hk|].
   destruct (check fp (c_orc s) (k0 :: kr) (t_start t)) eqn:Ech; try discriminate.
   apply check_ok_inv in Ech. destruct Ech as [Hkept Hall].
   destruct (Hs m ks k Hin ltac:(lia) Hks) as [v [Hv Hmv]]. specialize (Hall k v Hk Hv). lia.
 Qed.
 
-Theorem oracle_sound_no_failures : oracle_sound_no_failures_stmt fp G.
-Proof. intros steps Hnf. apply (inv_run false steps c0 inv_c0). right. exact Hnf. Qed.
-Theorem oracle_sound_fixed : oracle_sound_fixed_stmt fp G.
-Proof. intros steps. apply (inv_run true steps c0 inv_c0). left. reflexivity. Qed.
+Theorem oracle_sound : oracle_sound_stmt fp G.
+Proof. intros steps. apply (inv_run steps c0 inv_c0). Qed.
 Theorem watermark_ok_run : watermark_ok_stmt fp G.
-Proof. intros fixed steps Hnr. destruct (winv_run fixed steps c0 winv_c0 Hnr) as [H1 H2 _]. split; assumption. Qed.
+Proof. intros steps Hnr. destruct (winv_run steps c0 winv_c0 Hnr) as [H1 H2 _]. split; assumption. Qed.
 
-Theorem no_lost_update_no_failures : no_lost_update_no_failures_stmt fp G.
+Theorem no_lost_update : no_lost_update_stmt fp G.
 Proof.
-  intros steps id keys fail t m ks k Hnf s. apply no_lost_update_from_inv.
-  apply (inv_run false steps c0 inv_c0). right. exact Hnf.
-Qed.
-Theorem no_lost_update_fixed : no_lost_update_fixed_stmt fp G.
-Proof.
-  intros steps id keys fail t m ks k s. apply no_lost_update_from_inv.
-  apply (inv_run true steps c0 inv_c0). left. reflexivity.
+  intros steps id keys fail t m ks k s. apply no_lost_update_from_inv. apply (inv_run steps c0 inv_c0).
 Qed.
 
 Theorem no_false_conflict : no_false_conflict_stmt fp G.
 Proof.
-  intros fixed steps id keys fail t s Hinj Hg Hcl Hkept Hnone.
-  rewrite (commit_outcome _ _ _ _ _ _ Hg). rewrite Hcl. destruct keys as [|k0 kr]; [reflexivity|].
+  intros steps id keys fail t s Hinj Hg Hcl Hkept Hnone.
+  rewrite (commit_outcome _ _ _ _ _ Hg). rewrite Hcl. destruct keys as [|k0 kr]; [reflexivity|].
   set (keys := k0 :: kr) in *.
   assert (check fp (c_orc s) keys (t_start t) = VOk) as ->; [|reflexivity].
   apply check_ok_intro; [exact Hkept|]. intros k v Hk Hv.
   destruct (N.le_gt_cases v (t_start t)) as [L|L]; [exact L|]. exfalso.
-  destruct (jinv_run fixed steps c0 jinv_c0) as [_ Hj]. fold s in Hj.
+  destruct (inv_run steps c0 inv_c0) as [_ _ _ Hj]. fold s in Hj.
   destruct (Hj _ _ Hv) as [ks [k' [Hin [Hk' Hfp]]]].
   assert (In k' (steps_keys steps)) as Hsk.
-  { destruct (done_keys_run fixed steps c0 v ks k' Hin Hk') as [[m' H]|H]; [destruct H|exact H]. }
+  { destruct (done_keys_run steps c0 v ks k' Hin Hk') as [[m' H]|H]; [destruct H|exact H]. }
   assert (k' = k) as ->.
   { apply Hinj; [apply in_or_app; left; exact Hsk|apply in_or_app; right; exact Hk|exact Hfp]. }
   apply (Hnone v ks k Hin L Hk Hk').
@@ -765,8 +753,8 @@ Qed.
 
 Theorem registered_never_retry : registered_never_retry_stmt fp G.
 Proof.
-  intros fixed steps id keys fail t Hnr s Hg Hreg. rewrite (commit_outcome _ _ _ _ _ _ Hg).
-  destruct (winv_run fixed steps c0 winv_c0 Hnr) as [Hr _ _]. fold s in Hr. specialize (Hr id t Hg Hreg).
+  intros steps id keys fail t Hnr s Hg Hreg. rewrite (commit_outcome _ _ _ _ _ Hg).
+  destruct (winv_run steps c0 winv_c0 Hnr) as [Hr _ _]. fold s in Hr. specialize (Hr id t Hg Hreg).
   destruct (t_closed t); [discriminate|]. destruct keys as [|k0 kr]; [discriminate|].
   destruct (check fp (c_orc s) (k0 :: kr) (t_start t)) eqn:E; try discriminate; [destruct fail; discriminate|].
   apply check_retry in E. lia.
@@ -774,67 +762,67 @@ Qed.
 
 Theorem commit_accepted : commit_accepted_stmt fp G.
 Proof.
-  intros fixed steps id keys fail t Hnr s Hinj Hg Hreg Hnone.
-  pose proof (no_false_conflict fixed steps id keys fail t) as H. cbv zeta in H. apply H; try assumption.
-  - apply (regopen_run fixed steps c0 regopen_c0 id t Hg Hreg).
-  - destruct (winv_run fixed steps c0 winv_c0 Hnr) as [Hr _ _]. apply (Hr id t Hg Hreg).
+  intros steps id keys fail t Hnr s Hinj Hg Hreg Hnone.
+  pose proof (no_false_conflict steps id keys fail t) as H. cbv zeta in H. apply H; try assumption.
+  - apply (regopen_run steps c0 regopen_c0 id t Hg Hreg).
+  - destruct (winv_run steps c0 winv_c0 Hnr) as [Hr _ _]. apply (Hr id t Hg Hreg).
 Qed.
 
 Theorem gc_clamp_ok : gc_clamp_ok_stmt fp G.
 Proof.
-  intros fixed s id keys fail t Hg Hne Ho. rewrite (commit_outcome _ _ _ _ _ _ Hg) in Ho.
+  intros s id keys fail t Hg Hne Ho. rewrite (commit_outcome _ _ _ _ _ Hg) in Ho.
   unfold step_state. cbn [cs_step]. rewrite Hg. destruct (t_closed t); [destruct Ho; discriminate|].
   destruct keys as [|k0 kr]; [congruence|]. unfold commit_core.
   destruct (check fp (c_orc s) (k0 :: kr) (t_start t)) eqn:E; try (destruct Ho; discriminate).
   apply check_ok_inv in E. destruct E as [Hk _].
-  destruct fail; cbn [fst c_orc]; [destruct fixed; cbn [kept_since rollback rollback_restore]|];
+  destruct fail; cbn [fst c_orc]; [cbn [kept_since rollback]|];
     apply publish_kept_le; lia.
 Qed.
 
-Lemma vinv_step fixed s c : c_visible s < c_next s ->
-  c_visible (step_state fp G fixed s c) < c_next (step_state fp G fixed s c).
+Lemma vinv_step s c : c_visible s < c_next s ->
+  c_visible (step_state fp G s c) < c_next (step_state fp G s c).
 Proof.
-  intros H. destruct (step_shape fixed s c) as [o|txs o|id t keys Hc Hg Hcl Hne Hch|id t keys Hc Hg Hcl Hne Hch|max Hc];
+  intros H. destruct (step_shape s c) as [o|txs o|id t keys Hc Hg Hcl Hne Hch|id t keys Hc Hg Hcl Hne Hch|max Hc];
     cbn [c_visible c_next]; try exact H.
   - pose proof (count_pos keys Hne). unfold stamp_of. lia.
   - pose proof (count_pos keys Hne). unfold stamp_of. lia.
   - destruct (N.ltb 0 max); lia.
 Qed.
-Lemma vis_mono_step fixed s c : is_restore c = false -> c_visible s <= c_visible (step_state fp G fixed s c).
+Lemma vis_mono_step s c : is_restore c = false -> c_visible s <= c_visible (step_state fp G s c).
 Proof.
-  intros H. destruct (step_shape fixed s c) as [o|txs o|id t keys Hc Hg Hcl Hne Hch|id t keys Hc Hg Hcl Hne Hch|max Hc];
+  intros H. destruct (step_shape s c) as [o|txs o|id t keys Hc Hg Hcl Hne Hch|id t keys Hc Hg Hcl Hne Hch|max Hc];
     cbn [c_visible]; try lia. subst c. discriminate.
 Qed.
-Lemma done_step_new fixed s c m ks : In (m, ks) (c_done (step_state fp G fixed s c)) ->
+Lemma done_step_new s c m ks : In (m, ks) (c_done (step_state fp G s c)) ->
   In (m, ks) (c_done s) \/ c_next s <= m.
 Proof.
-  destruct (step_shape fixed s c) as [o|txs o|id t keys Hc Hg Hcl Hne Hch|id t keys Hc Hg Hcl Hne Hch|max Hc];
+  destruct (step_shape s c) as [o|txs o|id t keys Hc Hg Hcl Hne Hch|id t keys Hc Hg Hcl Hne Hch|max Hc];
     cbn [c_done]; auto.
   - intros [H|H]; [right|left; exact H]. inversion H as [[H1 H2]]. pose proof (count_pos keys Hne) as Hcp. unfold stamp_of in *. rewrite <- H2. lia.
   - intros H. apply filter_In in H. left. apply H.
 Qed.
-Lemma vinv_run fixed steps : forall s, c_visible s < c_next s -> c_visible (run fp G fixed steps s) < c_next (run fp G fixed steps s).
+Lemma vinv_run steps : forall s, c_visible s < c_next s -> c_visible (run fp G steps s) < c_next (run fp G steps s).
 Proof. induction steps as [|c r IH]; intros s H; [exact H|]. cbn [run fold_left]. apply IH. apply vinv_step. exact H. Qed.
 
 Theorem later_commits_have_later_stamps : later_commits_have_later_stamps_stmt fp G.
 Proof.
-  intros fixed pre post m ks Hnr s1.
+  intros pre post m ks Hnr s1.
   assert (c_visible s1 < c_next s1) as Hv.
   { apply vinv_run. cbn. rewrite first_seq. lia. }
   assert (forall post s v, v <= c_visible s -> c_visible s < c_next s -> no_restore post ->
-            In (m, ks) (c_done (run fp G fixed post s)) -> In (m, ks) (c_done s) \/ v < m) as Hgen.
+            In (m, ks) (c_done (run fp G post s)) -> In (m, ks) (c_done s) \/ v < m) as Hgen.
   { clear. induction post as [|c r IH]; intros s v Hle Hvn Hnr Hin; [left; exact Hin|]. cbn [run fold_left] in Hin.
     assert (is_restore c = false) as Hc by (apply Hnr; left; reflexivity).
-    pose proof (vis_mono_step fixed s c Hc) as Hm.
-    destruct (IH (step_state fp G fixed s c) v ltac:(lia) (vinv_step fixed s c Hvn)
+    pose proof (vis_mono_step s c Hc) as Hm.
+    destruct (IH (step_state fp G s c) v ltac:(lia) (vinv_step s c Hvn)
                  (fun c' H => Hnr c' (or_intror H)) Hin) as [H|H]; [|right; exact H].
-    destruct (done_step_new _ _ _ _ _ H) as [H2|H2]; [left; exact H2|right; lia]. }
+    destruct (done_step_new _ _ _ _ H) as [H2|H2]; [left; exact H2|right; lia]. }
   apply (Hgen post s1 (c_visible s1)); [lia|exact Hv|exact Hnr].
 Qed.
 
 Theorem refused_has_no_effect : refused_has_no_effect_stmt fp G.
 Proof.
-  intros fixed s c o Ho Hc. subst o. revert Hc. unfold step_outcome, step_state.
+  intros s c o Ho Hc. subst o. revert Hc. unfold step_outcome, step_state.
   destruct c as [id m|id|id keys fail|max]; cbn [cs_step].
   - destruct (tx_get id (c_txs s)); cbn [fst snd]; [reflexivity|]. intros [H|[H|[H|[H|H]]]]; discriminate.
   - destruct (tx_get id (c_txs s)); cbn [fst snd]; [|reflexivity]. intros [H|[H|[H|[H|H]]]]; discriminate.
@@ -847,40 +835,30 @@ Proof.
 Qed.
 End Machine.
 
-(* ---------- refutations on the model of the pinned code (concrete witnesses) ---------- *)
+
+(* ---------- concrete histories ---------- *)
 (* a toy fingerprint, injective on the one-byte keys used below *)
 Definition toy_fp (k : bytes) : N := match k with [] => 0 | x :: _ => x + 1 end.
 Definition kA : bytes := [7].
 Definition kB : bytes := [9].
 
-(* F13.  T3 begins; T2 begins and commits kA (stamp 1) while T3 is open; T1 begins (start 1),
-   publishes kA with stamp 2, its WAL append fails, rollback REMOVES kA's entry (it does not put
-   stamp 1 back); T3 (start 0) then commits kA: accepted, although T2 wrote kA after T3 began. *)
+(* The history that lost an update before the fix of F13 (rollback used to REMOVE the entry):
+   T3 begins; T2 begins and commits kA (stamp 1) while T3 is open; T1 begins (start 1), publishes
+   kA with stamp 2, its WAL append fails, rollback puts stamp 1 back; T3 (start 0) is refused.
+   (An instance of no_lost_update; kept as a regression example, also replayed on the crate.) *)
 Definition lu_steps : list cstep :=
   [SBegin 3 BRW; SBegin 2 BRW; SCommit 2 [kA] false; SBegin 1 BRW; SCommit 1 [kA] true].
-Definition lu_state : cstate := Eval vm_compute in run toy_fp ORACLE_GC_INTERVAL false lu_steps c0.
-Definition lu_tx : tx := {| t_start := 0; t_reg := true; t_snap := true; t_closed := false |}.
-Lemma lu_state_eq : run toy_fp ORACLE_GC_INTERVAL false lu_steps c0 = lu_state.
+Lemma lu_steps_refused :
+  step_outcome toy_fp ORACLE_GC_INTERVAL (run toy_fp ORACLE_GC_INTERVAL lu_steps c0) (SCommit 3 [kA] false) = OConflict.
 Proof. vm_compute. reflexivity. Qed.
 
-Theorem no_lost_update_refuted : lost_update toy_fp ORACLE_GC_INTERVAL false.
-Proof.
-  exists lu_steps, 3, [kA], lu_tx, 1, [kA], kA. cbv zeta. rewrite lu_state_eq.
-  split; [vm_compute; reflexivity|]. split; [vm_compute; reflexivity|].
-  split; [vm_compute; left; reflexivity|]. split; [reflexivity|]. split; left; reflexivity.
-Qed.
-(* the same history with the repaired rollback: T3 is refused *)
-Lemma lu_steps_fixed_refused :
-  step_outcome toy_fp ORACLE_GC_INTERVAL true (run toy_fp ORACLE_GC_INTERVAL true lu_steps c0) (SCommit 3 [kA] false) = OConflict.
-Proof. vm_compute. reflexivity. Qed.
-
-(* Restore with an open transaction whose start is above the restored counter.  G+100 commits;
-   T1 begins (start G+100); restore to 5 (visible := 5, kept_since := 5, counter of publishes := 0);
-   G-1 commits by fresh transactions; then T1 commits: it is the G-th publish since the reset, the
-   only registered transaction is T1 itself, so oldest_active = min(T1.start, T1.start) = G+100 >
-   kept_since: the GC body runs and sets kept_since := G+100 while visible = G+5.  From then on
-   every transaction begins at visible < kept_since and is answered Retry; nothing can commit, so
-   visible never catches up. *)
+(* Restore with an open transaction whose start is above the restored counter (finding C04-N1).
+   G+100 commits; T1 begins (start G+100); restore to 5 (visible := 5, kept_since := 5, counter of
+   publishes := 0); G-1 commits by fresh transactions; then T1 commits: it is the G-th publish
+   since the reset, the only registered transaction is T1 itself, so oldest_active =
+   min(T1.start, T1.start) = G+100 > kept_since: the GC body runs and sets kept_since := G+100
+   while visible = G+5.  From then on every transaction begins at visible < kept_since and is
+   answered Retry; nothing can commit, so visible never catches up. *)
 Fixpoint many (n : nat) (id : N) : list cstep :=
   match n with
   | O => []
@@ -889,15 +867,31 @@ Fixpoint many (n : nat) (id : N) : list cstep :=
 Definition fr_steps : list cstep :=
   many (N.to_nat ORACLE_GC_INTERVAL + 100) 10 ++ [SBegin 1 BRW; SRestore 5] ++
   many (N.to_nat ORACLE_GC_INTERVAL - 1) 100000 ++ [SCommit 1 [kB] false; SBegin 2 BRW].
-Definition fr_state : cstate := Eval vm_compute in run toy_fp ORACLE_GC_INTERVAL false fr_steps c0.
+Definition fr_state : cstate := Eval vm_compute in run toy_fp ORACLE_GC_INTERVAL fr_steps c0.
 Definition fr_tx : tx := Eval vm_compute in
   match tx_get 2 (c_txs fr_state) with Some t => t | None => {| t_start := 0; t_reg := false; t_snap := false; t_closed := true |} end.
-Lemma fr_state_eq : run toy_fp ORACLE_GC_INTERVAL false fr_steps c0 = fr_state.
+Lemma fr_state_eq : run toy_fp ORACLE_GC_INTERVAL fr_steps c0 = fr_state.
 Proof. vm_compute. reflexivity. Qed.
 
-Theorem fresh_retry_after_restore_holds : fresh_retry_after_restore toy_fp ORACLE_GC_INTERVAL false.
+Theorem fresh_retry_after_restore_holds : fresh_retry_after_restore toy_fp ORACLE_GC_INTERVAL.
 Proof.
   exists fr_steps, 2, [kA], fr_tx. cbv zeta. rewrite fr_state_eq.
   split; [vm_compute; reflexivity|]. split; [reflexivity|]. split; [reflexivity|].
   split; [vm_compute; reflexivity|]. split; [vm_compute; reflexivity|]. vm_compute. reflexivity.
 Qed.
+
+(* The undo kept in the map is ONE level deep.  It is sufficient for the commit pipeline because a
+   second publisher of a key can only publish after its check passed, i.e. with start >= the first
+   publisher's stamp, i.e. after the first batch became visible, which happens after its rollback
+   (commit.rs: rollback; complete(Err); mark_applied; the queue is FIFO).  For ARBITRARY call
+   sequences it is not: k committed at 5; an in-flight publisher stamps 8, another one 10; the
+   second fails (8 is put back, remembering nothing), then the first fails (8 is removed): the
+   successful stamp 5 is forgotten and a transaction with start 0 passes the check. *)
+Example one_level_undo_needs_pipeline_discipline :
+  let o1 := publish toy_fp ORACLE_GC_INTERVAL o_new [kA] 5 1 0 in
+  let o2 := publish toy_fp ORACLE_GC_INTERVAL o1 [kA] 8 1 0 in
+  let o3 := publish toy_fp ORACLE_GC_INTERVAL o2 [kA] 10 1 0 in
+  let o4 := rollback toy_fp o3 [kA] 10 in
+  let o5 := rollback toy_fp o4 [kA] 8 in
+  check toy_fp o1 [kA] 0 = VConflict /\ check toy_fp o5 [kA] 0 = VOk.
+Proof. vm_compute. split; reflexivity. Qed.
